@@ -311,13 +311,32 @@ func (r *c07Run) run() {
 			r.logf("proposal %d (%s): %s", id, want, res.ErrString())
 			if res.OK() {
 				if want != "dropped" {
-					opt := govv1.OptionYes
-					if rng.IntN(5) == 0 {
-						opt = govv1.OptionNo
-						want = "rejected"
-					}
-					for _, v := range c.Vals {
+					// voting patterns: everybody yes / no / abstain / veto, a split, a single voter, nobody
+					pat := rng.IntN(10)
+					opts := []govv1.VoteOption{govv1.OptionYes, govv1.OptionNo, govv1.OptionAbstain, govv1.OptionNoWithVeto}
+					for vi, v := range c.Vals {
+						opt := govv1.OptionYes
+						switch pat {
+						case 0:
+							opt = govv1.OptionNo
+						case 1:
+							opt = govv1.OptionAbstain
+						case 2:
+							opt = govv1.OptionNoWithVeto
+						case 3:
+							opt = opts[rng.IntN(len(opts))]
+						case 4:
+							if vi > 0 {
+								continue
+							}
+							opt = opts[rng.IntN(len(opts))]
+						case 5:
+							continue
+						}
 						fix.GovVote(c, v.Operator, id, opt)
+					}
+					if pat <= 5 {
+						want = fmt.Sprintf("vote-pattern-%d", pat)
 					}
 				}
 				open = append(open, prop{id, want})
